@@ -11,9 +11,15 @@ from shape import bool_switch
 RESET = ("std::vec::Vec::<T, A>::clear", "std::vec::Vec::<T, A>::truncate")
 
 
-def result_branches(b, res_local):
+def result_branches(b, res_local, _depth=0):
     """(switch block, ok target, err target) for every branch on the Result in res_local: match / `?` / is_ok() / is_err()"""
     out = list(result_edges(b, res_local))
+    # the result may pass through combinators first (`.map_err(..)`, `.and_then(..)`): branch on their result
+    for bi, t in b.calls():
+        nm = callee_names(t["func"])
+        if nm and nm[0].startswith("std::result::Result::<T, E>::") and nm[0].split("::")[-1] in ("and_then", "map", "map_err", "or_else", "and", "inspect", "inspect_err") \
+                and t["args"] and t["args"][0].get("k") in ("copy", "move") and not t["args"][0]["pl"]["p"] and t["args"][0]["pl"]["l"] == res_local and not t["dest"]["p"] and _depth < 4:
+            out += result_branches(b, t["dest"]["l"], _depth + 1)
     for bi, t in b.calls():
         nm = callee_names(t["func"])
         if nm and nm[0] in ("std::result::Result::<T, E>::is_ok", "std::result::Result::<T, E>::is_err") and t["args"]:
